@@ -40,6 +40,7 @@ class Ctx:
         self.prop = prop
         self.tier = tier
         self.obs = []
+        self._seen = set()
         self.analysed = {}
         self.notes = []
         self.advisories = []
@@ -49,6 +50,10 @@ class Ctx:
     def _add(self, verdict, rule, construct, where, detail, key, nontrivial, witness):
         if hasattr(key, "lineno") or hasattr(key, "_fields"):
             key = norm_stmt(key)
+        sig = (self.clause, rule, construct, key or "", verdict, detail)
+        if sig in self._seen:
+            return
+        self._seen.add(sig)
         self.obs.append(Ob(self.prop, self.clause, rule, construct, where, verdict, detail,
                            key or "", nontrivial, witness))
 
